@@ -5604,9 +5604,19 @@ SBEPP_DEPRECATED constexpr auto
 
 namespace detail
 {
-// Cursor used by `size_bytes_checked()`. Unlike `sbepp::cursor`, it reads
-// `<data>` length (to move past the data) only when it's located before
-// `limit`, otherwise it stays in place and the visitor reports an error.
+// size of `View`'s header (message header/group dimension) which, unlike
+// `get_header_size()`, never creates the header view and thus doesn't require
+// it to be within `view`'s bounds
+template<typename View>
+constexpr std::size_t get_static_header_size(View view) noexcept
+{
+    return sbepp::size_bytes(decltype(sbepp::get_header(view)){});
+}
+
+// Cursor used by `size_bytes_checked()`. It moves exactly like
+// `sbepp::cursor` but never reads from the underlying buffer, except for
+// `<data>` length, and only when it's located before `limit`. It also avoids
+// all the size checks because they're performed by the visitor itself.
 template<typename Byte>
 class size_bytes_checked_cursor : public cursor<Byte>
 {
@@ -5618,11 +5628,68 @@ public:
         this->pointer() = ptr;
     }
 
+    template<typename T, typename U, endian E, typename View>
+    SBEPP_CPP14_CONSTEXPR T get_value(
+        const View /*view*/,
+        const std::size_t offset,
+        const std::size_t /*absolute_offset*/) noexcept
+    {
+        this->pointer() += offset + sizeof(U);
+        return T{};
+    }
+
+    template<typename T, typename U, endian E, typename View>
+    SBEPP_CPP14_CONSTEXPR T get_last_value(
+        const View view,
+        const std::size_t /*offset*/,
+        const std::size_t /*absolute_offset*/) noexcept
+    {
+        move_to_block_end(view);
+        return T{};
+    }
+
+    template<typename Res, typename View>
+    SBEPP_CPP14_CONSTEXPR Res get_static_field_view(
+        const View view,
+        const std::size_t offset,
+        const std::size_t /*absolute_offset*/) noexcept
+    {
+        Res res{this->pointer() + offset, view(detail::end_ptr_tag{})};
+        this->pointer() += offset + res(detail::size_bytes_tag{});
+        return res;
+    }
+
+    template<typename Res, typename View>
+    SBEPP_CPP14_CONSTEXPR Res get_last_static_field_view(
+        const View view,
+        const std::size_t offset,
+        const std::size_t /*absolute_offset*/) noexcept
+    {
+        Res res{this->pointer() + offset, view(detail::end_ptr_tag{})};
+        move_to_block_end(view);
+        return res;
+    }
+
+    template<typename ResView, typename View>
+    SBEPP_CPP14_CONSTEXPR ResView get_first_group_view(const View view) noexcept
+    {
+        move_to_block_end(view);
+        return get_group_view<ResView>(view, nullptr);
+    }
+
+    template<typename ResView, typename View, typename Getter>
+    SBEPP_CPP14_CONSTEXPR ResView
+        get_group_view(const View view, Getter&& /*getter*/) noexcept
+    {
+        ResView res{this->pointer(), view(detail::end_ptr_tag{})};
+        this->pointer() += detail::get_static_header_size(res);
+        return res;
+    }
+
     template<typename ResView, typename View>
     SBEPP_CPP20_CONSTEXPR ResView get_first_data_view(const View view) noexcept
     {
-        this->pointer() = view(detail::get_level_tag{})
-                          + view(detail::get_block_length_tag{});
+        move_to_block_end(view);
         return get_data_view<ResView>(view, nullptr);
     }
 
@@ -5643,6 +5710,13 @@ public:
 
 private:
     Byte* limit{};
+
+    template<typename View>
+    SBEPP_CPP14_CONSTEXPR void move_to_block_end(const View view) noexcept
+    {
+        this->pointer() = view(detail::get_level_tag{})
+                          + view(detail::get_block_length_tag{});
+    }
 };
 
 class size_bytes_checked_visitor
@@ -5678,13 +5752,13 @@ public:
 #ifdef SBEPP_VERIF
         SBEPP_VERIF_STEP();
 #endif
-        const auto header = sbepp::get_header(g);
-        const auto header_size = sbepp::size_bytes(header);
-        if(!validate_and_subtract(header_size))
+        // header has to be validated before it's accessed
+        if(!validate_and_subtract(detail::get_static_header_size(g)))
         {
             return true;
         }
 
+        const auto header = sbepp::get_header(g);
         return on_group_entries(
             g, c, *header.blockLength(), sbepp::is_flat_group<T>{});
     }
@@ -5829,15 +5903,17 @@ template<typename View>
 SBEPP_CPP20_CONSTEXPR size_bytes_checked_result
     size_bytes_checked(View view, std::size_t size) noexcept
 {
-    // `init_cursor` skips header, we need to ensure there's enough space for it
-    if(!sbepp::addressof(view) || (size < detail::get_header_size(view)))
+    // cursor skips header, we need to ensure there's enough space for it
+    if(!sbepp::addressof(view)
+       || (size < detail::get_static_header_size(view)))
     {
         return {};
     }
 
     detail::size_bytes_checked_visitor visitor{size};
     detail::size_bytes_checked_cursor<byte_type_t<View>> c{
-        sbepp::init_cursor(view).pointer(), sbepp::addressof(view) + size};
+        sbepp::addressof(view) + detail::get_static_header_size(view),
+        sbepp::addressof(view) + size};
     sbepp::visit(view, c, visitor);
     if(visitor.is_valid())
     {
